@@ -47,7 +47,7 @@ from dataclasses import dataclass, field
 from typing import *
 from typing_extensions import Unpack, NotRequired, Required, TypedDict
 from zoneinfo import ZoneInfo
-from mashumaro import DataClassDictMixin, field_options
+from mashumaro import DataClassDictMixin, field_options, pass_through
 from mashumaro.config import BaseConfig
 from mashumaro.types import Alias
 from mashumaro.dialect import Dialect
@@ -242,6 +242,22 @@ def gen_data(r, tbl: Table, depth, probe, clsname=None, generic=False):
             e.update({"name": e["name"] + str(j), "default": None, "init": True, "alias_meta": None, "alias_ann": None,
                       "alias_cfg": None, "alias": None})
         fields[0:0] = extra
+    for i, f in enumerate(fields):
+        f["ser"] = None
+        # overridden serialization of a field (default options otherwise): a function with a return annotation
+        # (the schema describes the annotated return type) or pass_through (the schema describes the declared type)
+        if not generic and not cfg["omit_none"] and f["type"][0] != "nt" and r.random() < 0.08:
+            # the function is applied to non-None values only, so the declared type must not be nullable (known
+            # finding schema-overridden-nullable); a container return annotation makes build_json_schema recurse
+            # without end (C20's business): scalar return types only
+            if r.random() < 0.6 and not nullable_spec(f["type"]) and not contains_tvar(f["type"]):
+                rt = r.choice([("str",), ("int",), ("bool",)])
+                f["ser"] = ("fn", rt, gen_value(r, rt, tbl, False, 2), f"_ser_{name}_{i}")
+            elif not contains_tvar(f["type"]):
+                f["type"] = r.choice([("int",), ("str",), ("bool",), ("list", ("int",)), ("dict", ("str",), ("int",)), ("opt", ("int",))])
+                f["ser"] = ("pass",)
+                if f["default"] is not None:
+                    f["default"] = "gen"
     for f in fields:
         f["nt_override"] = None
         f["final"] = False
@@ -613,6 +629,12 @@ def decl_src(d, tbl: Table) -> str:
                 fo.append(f"alias={f['alias_meta']!r}")
             if f.get("nt_override") is not None:
                 fo.append(f"serialize={f['nt_override']!r}")
+            if f.get("ser") is not None:
+                if f["ser"][0] == "fn":
+                    lines.append(f"def {f['ser'][3]}(v) -> {ty_src(f['ser'][1], tbl, nts)}:\n    return {val_src(f['ser'][2])}")
+                    fo.append(f"serialize={f['ser'][3]}")
+                else:
+                    fo.append("serialize=pass_through")
             if fo:
                 opts.append(f"metadata=field_options({', '.join(fo)})")
             if f.get("alias_cfg") is not None:
